@@ -155,6 +155,8 @@ type Machine struct {
 	// selftest (the repository's own tests under the interpreter)
 	entryArgs     func() []value
 	clockTicks    bool
+	symClock      bool
+	prevNow       *Term
 	builders      map[*value]*builderState
 	fmtExact      bool // fmt model: the verbs in use do not print type names
 	testFailWhere string
@@ -745,6 +747,7 @@ func (m *Machine) resetPath() {
 	m.opts = m.baseOpts
 	m.testFailed, m.testSkipped, m.testCleanups = false, false, nil
 	m.clock = 0
+	m.symClock, m.prevNow = false, nil
 	m.builders = nil
 }
 
